@@ -245,11 +245,17 @@ class C15(Prop):
             "socket, observed by a second member of the group): its length equals the frame's size and its header's "
             "total length, whatever was sent before on that socket (longer, shorter, equal).")
     extra_streams = [("sock", "C16router", "knxdrv", {"quick": 150, "thorough": 1500})]
-    technique = "Lean 4 proof (Size() arithmetic vs bytes written, all values incl. oversize) + three-prefill/guard-byte correspondence"
+    technique = ("Lean 4 proof (Size() arithmetic vs bytes written for all values incl. oversize; buffer-writing model of every "
+                 "Pack procedure - indexed stores, |= / &=, copy, sub-slices, util.PackSome - refined to the byte lists) + "
+                 "prefilled-buffer correspondence")
     level_text = ("Theorems for ALL values (no encodability hypothesis): bytes written = Size() for every sub-structure, message "
-                  "and service; header total length = size+6 = datagram length; truncation rules. Prefill independence and "
-                  "no-overrun are decided by the correspondence/oracle (3 prefills + guard bytes), Lean statement for them is partial.")
-    partial = "prefill-independence / no-overrun are shown by the differential run, not yet by a buffer-level Lean theorem"
+                  "and service; header total length = size+6 = datagram length; truncation rules. Buffer level (Knx.Buf, the Pack "
+                  "methods statement by statement): `frame_buffer` / `cemi_frame_buffer` / `body_buffer` - for EVERY buffer with "
+                  "room, whatever it held, knxnet.Pack / cemi.Pack / each service's Pack does not panic, leaves exactly the "
+                  "frame at the front and every byte behind it unchanged; corollaries `frame_prefill_independent`, "
+                  "`frame_guard_untouched`. Tie: the same values packed by the real code into buffers prefilled with 0x00 / "
+                  "0xFF / 0xA5 / pseudo-random bytes, the whole buffer compared with the buffer-writing model (`encw` lines) and "
+                  "with the byte lists; guard bytes checked.")
 
 
 class Proto(Prop):
